@@ -1151,25 +1151,30 @@ impl FatVolume {
             new_cluster,
             end_cluster
         );
+        // We have already taken our cluster, so running out of free clusters
+        // here is not an error - there just isn't a next free cluster.
         self.next_free_cluster =
             match self.find_next_free_cluster(block_cache, new_cluster, end_cluster) {
                 Ok(cluster) => Some(cluster),
-                Err(_) if new_cluster.0 > RESERVED_ENTRIES => {
+                Err(Error::NotEnoughSpace) if new_cluster.0 > RESERVED_ENTRIES => {
                     match self.find_next_free_cluster(
                         block_cache,
                         ClusterId(RESERVED_ENTRIES),
                         end_cluster,
                     ) {
                         Ok(cluster) => Some(cluster),
+                        Err(Error::NotEnoughSpace) => None,
                         Err(e) => return Err(e),
                     }
                 }
+                Err(Error::NotEnoughSpace) => None,
                 Err(e) => return Err(e),
             };
         debug!("Next free cluster is {:?}", self.next_free_cluster);
-        // Record that we've allocated a cluster
+        // Record that we've allocated a cluster. The count comes from the
+        // disk and might be stale, so don't let it underflow.
         if let Some(ref mut number_free_cluster) = self.free_clusters_count {
-            *number_free_cluster -= 1;
+            *number_free_cluster = number_free_cluster.saturating_sub(1);
         };
         if zero {
             let start_block_idx = self.cluster_to_block(new_cluster);
